@@ -66,6 +66,10 @@ Definition res_eqb {A} (eqb : A -> A -> bool) (a b : res A) : bool :=
 (** C07 entry points *)
 Definition run_to_xml (t : ftree) : pystr := to_xml_top t.
 Definition run_eml (t : ftree) : pystr := eml_to_xml_top t.
+(** the exporters with every optional parameter: parent's nsmap, level, skip_ns *)
+Definition run_to_xml_p (c : option (list (pystr * pystr)) * nat * bool * ftree) : pystr :=
+  let '(pm, lv, sk, t) := c in to_xml pm lv sk t.
+Definition run_eml_l (c : nat * ftree) : pystr := eml_to_xml (fst c) (snd c).
 (** the specification parser followed by the lxml view *)
 Definition run_parse (doc : pystr) : option xel := option_map (lxml_of []) (xparse doc).
 
